@@ -262,7 +262,7 @@ SUBSETS = [s for n in (1, 2, 3) for s in itertools.combinations(("dr", "rd", "rr
 
 
 def harnesses(tier):
-    hs = []
+    hs = [ZeroWeightBin()]
     B, P = (1, 3) if tier == "quick" else (2, 3)
     for s in SUBSETS:
         for auto in (False, True):
@@ -273,7 +273,6 @@ def harnesses(tier):
         hs.append(Estimator(("dr", "rr"), True, 1, 5))
     hs.append(Estimator(("dr", "rr"), False, 1, 2, wrong="sign"))
     hs.append(AutoNorm(2, 3))
-    hs.append(ZeroWeightBin())
     if tier == "thorough":
         hs.append(AutoNorm(1, 5))
     for ref, unk in ((False, False), (True, False), (False, True), (True, True)):
